@@ -1,6 +1,6 @@
 """C01 - containers behave as a sorted map / sorted set."""
 import json, os, sys
-from harness import common, tlc, shapes, jobs, embed, build
+from harness import common, tlc, shapes, embed, replayplan as RP
 
 INVS = ('AbsOK', 'ResOK', 'LookupOK', 'Sound')
 PROPS = ('ErrUnchanged',)
@@ -19,43 +19,25 @@ def main():
             ck.violation('TLC: %s violated on the specification (keys=%d vals=%d sizes=%d/%d): %s' % (
                 r.violation or r.error, nk, nv, lf, it, r.out[-1500:]), dict(kind='tlc', inst=[nk, nv, lf, it]))
     # 2. spec -> code: replay explored transitions into the real containers
-    plan = []
-    dumps = [(4, 2, 2, 2, False), (5, 1, 2, 2, True), (4, 2, 99, 2, False)] if quick else \
-            [(5, 2, 2, 2, False), (6, 1, 2, 2, True), (5, 2, 3, 2, False), (5, 2, 99, 2, False), (6, 1, 2, 3, True)]
-    fams = embed.QUICK_FAMILIES if quick else embed.FAMILIES
-    for (nk, nv, lf, it, is_set) in dumps:
+    dumps = []
+    spec = [(4, 2, 2, 2, [False]), (5, 1, 2, 2, [True]), (4, 2, 99, 2, [False, True])] if quick else \
+           [(5, 2, 2, 2, [False, True]), (6, 1, 2, 2, [True]), (5, 2, 3, 2, [False]), (5, 2, 99, 2, [False, True]),
+            (6, 1, 2, 3, [True])]
+    for (nk, nv, lf, it, sets) in spec:
         fn, payloads, summ = shapes.dump_file(nk, nv, lf, it)
         ck.add_tlc(summ, 'dump keys=%d vals=%d sizes=(%d,%d)' % (nk, nv, lf, it))
-        n = len(payloads)
-        for fam in fams:
-            for impl in ('c', 'py'):
-                for emb in (('mid', 'ext') if not quick else ('ext',)):
-                    budget = (1500 if impl == 'c' else 500) if quick else (20000 if impl == 'c' else 4000)
-                    idx = list(range(n))
-                    if n > budget:
-                        idx = sorted(ck.rng.sample(idx, budget))
-                    kind = 'leaf' if lf >= 99 else 'tree'
-                    sets = [is_set] if nv == 1 else [False, True]
-                    if nv > 1 and is_set is False and quick:
-                        sets = [False]
-                    for s in sets:
-                        plan.append(dict(dump=fn, fam=fam, impl=impl, kind=kind, is_set=s, emb=emb, leaf=lf,
-                                         internal=it, nkeys=nk, indices=idx, seed=ck.seed,
-                                         flags=['observe', 'checkers']))
-    results = jobs.run_jobs('harness.workers.replay_worker', plan)
-    for job, res, err in results:
-        if err:
-            ck.violation('replay worker died (%s %s %s): %s' % (job['fam'], job['impl'], job['kind'], err),
-                         dict(kind='crash', fam=job['fam'], impl=job['impl'], err=err))
-            continue
-        ck.add_traces(res['counts']['replayed'])
-        ck.bump('replay_steps', res['counts']['steps'])
-        ck.bump('observations', res['counts']['checks'])
-        for mm in res['mismatches']:
-            ck.violation('%s %s %s: %s differs from the specification after %s' % (
-                mm.get('fam'), mm.get('impl'), mm.get('kind'), mm['kind'], json.dumps(mm.get('act'))), mm)
-    if results and results[0][1]:
-        ck.sample(dict(kind='replayed transition', job={k: v for k, v in plan[0].items() if k not in ('indices', 'dump')}))
+        dumps.append((fn, payloads, nk, nv, lf, it, sets))
+    # deeper trees (4+ levels) by simulation over 16 keys, effective steps only
+    for (nk, nv, lf, it, num, depth, sets) in ([(16, 2, 2, 2, 40, 60, [False, True])] if quick else
+                                               [(16, 2, 2, 2, 400, 80, [False, True]), (16, 1, 3, 2, 300, 80, [True]),
+                                                (16, 2, 2, 3, 300, 80, [False])]):
+        fn, payloads, summ = RP.sim_dump(ck, nk, nv, lf, it, num, depth, spec='SpecEff')
+        ck.add_tlc(summ, 'simulation keys=%d sizes=(%d,%d) num=%d depth=%d' % (nk, lf, it, num, depth))
+        dumps.append((fn, payloads, nk, nv, lf, it, sets))
+    fams = embed.QUICK_FAMILIES if quick else embed.FAMILIES
+    plan = RP.plan_jobs(ck, dumps, fams, ('c', 'py'), ('ext',) if quick else ('mid', 'ext'),
+                        1200 if quick else 20000, 400 if quick else 4000, ['observe', 'checkers'])
+    RP.run_plan(ck, plan)
     ck.assumptions += ['keys of one container are mutually comparable',
                        'model keys/values are embedded order-preservingly into each family (harness/embed.py)',
                        'node sizes >= 2']
